@@ -2,7 +2,7 @@
    document.render, the API and histories, as Hoare triples [tok Q m] over the block monad: from a session satisfying the
    invariant [Sok], m returns a value satisfying Q and a session satisfying Sok, or raises one of [blk_exn]. *)
 From Rimu Require Import Base Unicode Regex RegexSem RegexAnalysis RegexParse Str Types Tables Guards State Inline Block MatchLemmas Placeholder
-  TaintInline NoRaise NoRaiseTop Lines.
+  TaintInline NoRaise NoRaiseTop Lines MatchExact FilterLemmas.
 From Coq Require Import Lia.
 Local Open Scope monad_scope.
 
@@ -17,9 +17,28 @@ Definition dre_ok (n : str) (r : cre) : Prop :=
   (str_eqb n $"paragraph" = true /\ r = para_re) \/
   (str_eqb n $"paragraph" = false /\ nullable (re_ast r) = false /\ re_search r [92] = None).
 
+(* the content filters that search with a pattern of their own find what they look for: the indented block's opening pattern
+   has a group 1 that holds a non-space character, and the macro-definition block's opening pattern is built from the same two
+   pieces as the pattern that re-reads the macro name from the opening delimiter (FilterLemmas.v) *)
+Definition dcont_ok (d : ddef) : Prop :=
+  match d_content d with
+  | CfIndented => d_delim d = DfOpening /\ gmust 1 (re_ast (d_openRe d)) = true /\ (0 < re_groups (d_openRe d))%nat
+  | CfMacroDef => mdef_okb (d_openRe d) = true /\ str_eqb (d_name d) $"paragraph" = false
+  | _ => True
+  end.
+
 Definition dok (d : ddef) : Prop :=
   rfree (d_openTag d) /\ rfree (d_closeTag d) /\
-  (re_groups (d_closeRe d) = O \/ always_grp 1 (re_ast (d_closeRe d)) = true) /\ dre_ok (d_name d) (d_openRe d).
+  (re_groups (d_closeRe d) = O \/ always_grp 1 (re_ast (d_closeRe d)) = true) /\ dre_ok (d_name d) (d_openRe d) /\
+  dcont_ok d.
+
+(* what the opening match of a block gives its content filter *)
+Definition mok (d : ddef) (m : mres) : Prop :=
+  match d_content d with
+  | CfIndented => d_delim d = DfOpening /\ exists g x, grp m 1 = Some g /\ In x g /\ nonspace x = true
+  | CfMacroDef => re_search re_delimitedblocks_macroDefContentFilter_0 (grp0 m) <> None
+  | _ => True
+  end.
 
 (* a definition whose filter reads group 1 keeps a pattern in which group 1 takes part in every match, also when its
    pattern text is compiled again with other flags by a redefinition *)
@@ -47,7 +66,7 @@ Arguments so_dblocks {L} s _.
 (* the exceptions that can escape: the two inline ones, and the case that the pattern of a content filter (indented
    paragraph, macro definition) does not match what its block pattern matched *)
 Definition blk_exn (e : exn) : Prop :=
-  e = ExIntTooLong \/ e = ExUnsupported \/ e = ExFilter.
+  e = ExIntTooLong \/ e = ExUnsupported.
 Ltac bx := unfold blk_exn; tauto.
 
 (* from a good session with list-id stack L1: a value satisfying Q and a good session with stack L2, or an allowed failure *)
@@ -117,9 +136,8 @@ Lemma tok_lift {A} (Q : A -> Prop) (f : ienv -> I A) :
 Proof.
   intros H s Hs. unfold lift. destruct (H (ienv_of s) (so_env s Hs) (filt_ok2_env s Hs)) as [G R]. unfold good in G. unfold raises_only in R.
   destruct (f (ienv_of s)) as [[a msgs]|e|]; auto.
-  - pose proof (tok_log_msgs msgs s Hs) as Hl. unfold bind. destruct (log_msgs msgs s) as [[u s1]|e|]; auto.
-    simpl. destruct Hl. auto.
-  - destruct R as [-> | ->]; bx.
+  pose proof (tok_log_msgs msgs s Hs) as Hl. unfold bind. destruct (log_msgs msgs s) as [[u s1]|e|]; auto.
+  simpl. destruct Hl. auto.
 Qed.
 
 Section InlineTok.
@@ -407,14 +425,31 @@ Proof.
     destruct (re_search r [92]); [discriminate|reflexivity].
 Qed.
 
+Definition dcont_okb (d : ddef) : bool :=
+  match d_content d with
+  | CfIndented => (match d_delim d with DfOpening => true | _ => false end) && gmust 1 (re_ast (d_openRe d)) &&
+                  Nat.ltb 0 (re_groups (d_openRe d))
+  | CfMacroDef => mdef_okb (d_openRe d) && negb (str_eqb (d_name d) $"paragraph")
+  | _ => true
+  end.
+
+Lemma dcont_okb_spec d : dcont_okb d = true -> dcont_ok d.
+Proof.
+  unfold dcont_okb, dcont_ok. destruct (d_content d); auto; intros H.
+  - apply andb_prop in H as [H1 H2]. split; [exact H1|apply negb_true_iff; exact H2].
+  - apply andb_prop in H as [H H3]. apply andb_prop in H as [H1 H2].
+    split; [destruct (d_delim d); try discriminate; reflexivity|]. split; [exact H2|apply PeanoNat.Nat.ltb_lt; exact H3].
+Qed.
+
 Definition dokb (d : ddef) : bool :=
   rfreeb (d_openTag d) && rfreeb (d_closeTag d) &&
-  (Nat.eqb (re_groups (d_closeRe d)) 0 || always_grp 1 (re_ast (d_closeRe d))) && dre_okb (d_name d) (d_openRe d).
+  (Nat.eqb (re_groups (d_closeRe d)) 0 || always_grp 1 (re_ast (d_closeRe d))) && dre_okb (d_name d) (d_openRe d) &&
+  dcont_okb d.
 
 Lemma dokb_spec d : dokb d = true -> dok d.
 Proof.
-  unfold dokb, dok. intros H. apply andb_prop in H as [H H5]. apply andb_prop in H as [H H4]. apply andb_prop in H as [H1 H2].
-  split; [apply rfreeb_spec; exact H1|]. split; [apply rfreeb_spec; exact H2|]. split; [|apply dre_okb_spec; exact H5].
+  unfold dokb, dok. intros H. apply andb_prop in H as [H H6]. apply andb_prop in H as [H H5]. apply andb_prop in H as [H H4]. apply andb_prop in H as [H1 H2].
+  split; [apply rfreeb_spec; exact H1|]. split; [apply rfreeb_spec; exact H2|]. split; [|split; [apply dre_okb_spec; exact H5|apply dcont_okb_spec; exact H6]].
   apply orb_prop in H4 as [H4|H4]; [left; apply PeanoNat.Nat.eqb_eq; exact H4|right; exact H4].
 Qed.
 
@@ -768,10 +803,11 @@ Proof.
 Qed.
 
 Lemma macroDefContentFilter_ok text m e : rfree text -> (forall k, rfree (grp_s m k)) ->
+  re_search re_delimitedblocks_macroDefContentFilter_0 (grp0 m) <> None ->
   tok rfree (macroDefContentFilter fuel text m e).
 Proof.
-  intros Ht G. unfold macroDefContentFilter.
-  destruct (re_search re_delimitedblocks_macroDefContentFilter_0 (grp0 m)) as [mm|] eqn:E; [|apply tok_raise; bx].
+  intros Ht G Hfound. unfold macroDefContentFilter.
+  destruct (re_search re_delimitedblocks_macroDefContentFilter_0 (grp0 m)) as [mm|] eqn:E; [|congruence].
   pose proof (re_search_groups (fun x => 2 < x) _ _ _ E (G O)) as Gm.
   eapply tok_bind with (P := rfree).
   { apply tok_replaceInline.
@@ -847,17 +883,21 @@ Hypothesis Hdoc : forall text, rfree text -> tokR rfree (doc text).
 
 Definition dbres (r : str * reader) : Prop := rfree (fst r) /\ rdok (snd r).
 
-Lemma dblock_body_ok i d m rest : dok d -> (forall k, rfree (grp_s m k)) -> rdok rest ->
+Lemma dblock_body_ok i d m rest : dok d -> mok d m -> (forall k, rfree (grp_s m k)) -> rdok rest ->
   tokR dbres (dblock_body fuel doc i d m rest).
 Proof.
-  intros Hd G Hrest. unfold dblock_body.
-  eapply tokR_bind with (P := rfree).
-  { destruct (d_delim d).
-    - apply tokR_ret, allc_nil.
-    - destruct (grp m 1) as [g|] eqn:Eg; apply tokR_ret; [|apply allc_nil]. apply (grp_orf m 1 G). exact Eg.
+  intros Hd Hmok G Hrest. unfold dblock_body.
+  eapply tokR_bind with (P := fun dt => rfree dt /\ (d_content d = CfIndented -> exists x, In x dt /\ nonspace x = true)).
+  { unfold mok in Hmok. destruct (d_delim d) eqn:Edl.
+    - apply tokR_ret. split; [apply allc_nil|]. intros Ec. rewrite Ec in Hmok. destruct Hmok; discriminate.
+    - destruct (grp m 1) as [g|] eqn:Eg; apply tokR_ret.
+      + split; [apply (grp_orf m 1 G); exact Eg|]. intros Ec. rewrite Ec in Hmok. destruct Hmok as (_ & g' & x & Hg' & Hx & Hn).
+        inversion Hg'; subst g'. eauto.
+      + split; [apply allc_nil|]. intros Ec. rewrite Ec in Hmok. destruct Hmok as (_ & g' & x & Hg' & _). discriminate.
     - apply tokR_seq; [apply tokR_when, tokR_modify; intros Lx s Hs; apply Sok_classes; [rf|exact Hs]|].
-      apply tokR_seq; [apply tokR_modify; intros Lx s Hs; apply Sok_set_closeRe; [left; apply lit_close_groups|exact Hs]|]. apply tokR_ret, allc_nil. }
-  intros delimiterText Hdt. apply tokR_bind_gets. intros L0 s0 Hs0.
+      apply tokR_seq; [apply tokR_modify; intros Lx s Hs; apply Sok_set_closeRe; [left; apply lit_close_groups|exact Hs]|].
+      apply tokR_ret. split; [apply allc_nil|]. intros Ec. rewrite Ec in Hmok. destruct Hmok; discriminate. }
+  intros delimiterText [Hdt Hdns]. apply tokR_bind_gets. intros L0 s0 Hs0.
   destruct (readTo _ rest) as [[content rd1]|e|] eqn:Er; [| |apply tokR_fuel].
   2:{ exfalso. eapply (readTo_noraise _ (proj1 (proj2 (proj2 (nth_dok i _ d (so_dblocks s0 Hs0) Hd))))); eauto. }
   apply readTo_ok in Er as [Hcontent Hrd1]; [|exact Hrest].
@@ -867,6 +907,9 @@ Proof.
   match goal with |- context [join [10] ?L] => remember L as lines eqn:El end.
   assert (Hlines : Forall rfree lines).
   { subst lines. apply Forall_app. split; [|apply rdok_rfree; exact Hcontent]. destruct delimiterText; [constructor|constructor; [exact Hdt|constructor]]. }
+  assert (Hlns : d_content d = CfIndented -> exists x, In x (join [10] lines) /\ nonspace x = true).
+  { intros Ec. destruct (Hdns Ec) as (x & Hx & Hn). exists x. split; [|exact Hn]. subst lines.
+    destruct delimiterText as [|c0 dt]; [destruct Hx|]. cbn [app]. apply In_join_head. exact Hx. }
   clear El.
   eapply tokR_bind with (P := rfree).
   2:{ intros out Hout. apply tokR_seq; [apply tokR_modify; intros Lx s Hs; apply Sok_popts; exact Hs|].
@@ -874,13 +917,15 @@ Proof.
   destruct (truthy (e_skip expand)); [apply tokR_ret, allc_nil|].
   assert (Htext : rfree (join [10] lines)) by (apply allc_join; [rf|exact Hlines]).
   eapply tokR_bind with (P := rfree).
-  { destruct (d_content d).
+  { unfold mok in Hmok. destruct (d_content d) eqn:Ect.
     - apply tokR_ret. exact Htext.
     - apply tokR_of_tok; intros Lz; apply macroDefContentFilter_ok; auto.
     - apply tokR_gets. intros Lx s Hs. apply htmlSafeModeFilter_rfree; [|exact Htext].
       apply (eo_repl _ (io_env _ (so_env s Hs))).
     - destruct (indentedContentFilter _) as [t|e|] eqn:Ei; [| |apply tokR_fuel].
-      2:{ unfold indentedContentFilter in Ei. destruct (re_search _ _); [discriminate|]. inversion Ei; subst. apply tokR_raise; bx. }
+      2:{ exfalso. unfold indentedContentFilter in Ei. destruct (Hlns eq_refl) as (x & Hx & Hn).
+          pose proof (nonspace_search_complete _ x Hx Hn) as Hf.
+          destruct (re_search re_delimitedblocks_indentedContentFilter_0 (join [10] lines)); [discriminate|congruence]. }
       apply tokR_ret. eapply indentedContentFilter_ok; eauto.
     - apply tokR_ret. apply quoteParagraphContentFilter_ok. exact Htext. }
   intros text Ht. apply tokR_bind_gets. intros L2 s2 Hs2.
@@ -970,21 +1015,27 @@ Proof.
   pose proof (lfree_rfree _ Hcur0) as Hcur.
   destruct (re_search (d_openRe d) cur) as [m|] eqn:E; [|apply IH; assumption].
   pose proof (re_search_groups (fun x => 2 < x) _ _ _ E Hcur) as G.
-  assert (Body : tokR (dbl_post (cur :: rest)) (r <- dblock_body fuel doc i d m rest ;; ret (Some (fst r), snd r))).
-  { eapply tokR_bind; [apply dblock_body_ok; auto|]. intros [out rd'] [H1 H2]. apply tokR_ret. split; [|split; [exact H2|intros Hx; discriminate]].
+  assert (Body : mok d m -> tokR (dbl_post (cur :: rest)) (r <- dblock_body fuel doc i d m rest ;; ret (Some (fst r), snd r))).
+  { intros Hmok. eapply tokR_bind; [apply dblock_body_ok; auto|]. intros [out rd'] [H1 H2]. apply tokR_ret. split; [|split; [exact H2|intros Hx; discriminate]].
     intros t Ht. inversion Ht; subst. exact H1. }
-  destruct Hd as (_ & _ & _ & [[Hp Hre]|(Hp & Hn & Hbs)]); rewrite Hp.
+  assert (Hmok : (str_eqb (d_name d) $"paragraph" = false -> exists c0 g0, grp0 m = c0 :: g0 /\ c0 <> 92) -> mok d m).
+  { intros Hc0. destruct Hd as (_ & _ & _ & Hdre & Hcont). unfold mok, dcont_ok in *. destruct (d_content d); auto.
+    - destruct Hcont as [Hmd Hnp]. destruct (Hc0 Hnp) as (c0 & g0 & E0 & Hc92). eapply mdef_filter_found; eauto.
+    - destruct Hcont as (Hdl & Hgm & Hng). split; [exact Hdl|]. eapply gmust_match; eauto. apply re_search_spec. exact E. }
+  destruct Hd as (_ & _ & _ & [[Hp Hre]|(Hp & Hn & Hbs)] & _); rewrite Hp.
   - (* the paragraph *)
     rewrite Hre in E. destruct cur as [|x t]; [congruence|]. assert (Hx : x <> 10) by (apply (Hcur0 x); left; reflexivity).
     pose proof (para_nonempty x t m Hx E) as Hm0. destruct (grp0 m) as [|c0 g0]; [congruence|].
-    destruct (negb (db_verify _ m)); [apply IH; assumption|exact Body].
+    destruct (negb (db_verify _ m)); [apply IH; assumption|apply Body].
+    apply Hmok. intros Hx'. rewrite Hp in Hx'. discriminate.
   - pose proof (match_nonempty _ _ _ (re_search_spec _ _ _ E) Hn) as Hm0.
     destruct (grp0 m) as [|c0 g0] eqn:E0; [congruence|].
     destruct (c0 =? 92) eqn:Ec.
     { apply N.eqb_eq in Ec. subst c0. pose proof (escape_tl _ _ _ _ E E0 Hbs) as Htl.
       eapply tokR_weaken; [|apply IH; [constructor; [apply allc_tl; exact Hcur0|exact Hrest]|exact Htl]].
       intros r (R1 & R2 & R3). split; [exact R1|]. split; [exact R2|exact R3]. }
-    destruct (negb (db_verify d m)); [apply IH; assumption|exact Body].
+    destruct (negb (db_verify d m)); [apply IH; assumption|apply Body].
+    apply Hmok. intros _. exists c0, g0. split; [reflexivity|]. apply N.eqb_neq. exact Ec.
 Qed.
 
 Lemma dblocks_render_ok rd allowed : rdok rd -> rdne rd -> tokR (dbl_post rd) (dblocks_render fuel doc rd allowed).
